@@ -276,5 +276,5 @@ def canaries(tier):
         cs.append(Canary("chain-depends-on-first-instance",
                          lambda: stdlib_rewrite("prev_experiment_identifier = experiment_identifier",
                                                 "prev_experiment_identifier = prev_experiment_identifier or experiment_identifier"),
-                         space="inst3", preset={"ninst": 3, "name0": 0, "name1": 1, "name2": 6, "special": 0, "chain": True}))
+                         space="inst3", preset={"ninst": 3, "name0": 0, "name1": 1, "name2": 3, "special": 0, "chain": True}))
     return cs
